@@ -444,53 +444,58 @@ Definition head_ok (h : head) : Prop :=
   | HT p _ => s_procsInit p = false
   end.
 
-Lemma stream_head_spec : forall sc isLeading r,
-  forallb stream_wf (sc_streams sc) = true -> all_supported sc = true ->
-  is_panic (stream_head sc isLeading r) = false /\
-  forall h, stream_head sc isLeading r = Ok h -> head_ok h.
+(* per scenario: the repair is in, or the pinned tree's hypotheses hold *)
+Definition scen_hyp (repaired : bool) (sc : scenario) : Prop :=
+  repaired = true \/ (forallb stream_wf (sc_streams sc) = true /\ all_supported sc = true).
+
+Lemma stream_head_spec : forall repaired sc isLeading r,
+  scen_hyp repaired sc ->
+  is_panic (stream_head repaired sc isLeading r) = false /\
+  forall h, stream_head repaired sc isLeading r = Ok h -> head_ok h.
 Proof.
-  intros sc isLeading r Hwf Hsup. unfold stream_head.
+  intros repaired sc isLeading r H. unfold stream_head.
   destruct (nth_error (sc_streams sc) _) as [s|] eqn:N; [|split; [reflexivity|discriminate]].
   apply nth_error_In in N.
-  unfold all_supported in Hsup. rewrite forallb_forall in Hwf, Hsup.
-  specialize (Hwf s N). specialize (Hsup s N).
-  destruct s as [f|t]; cbn in Hwf, Hsup.
-  - pose proof (fmp4_run_head_np isLeading (fs_init f)) as NP.
-    destruct (fs_init f) as [init|] eqn:FI.
-    + specialize (NP Hwf). apply andb_true_iff in Hsup. destruct Hsup as [S1 S2].
-      destruct (fmp4_run_head isLeading (Some init)) as [[lead ts]| | |] eqn:E; cbn [bind];
-        try (split; [auto|discriminate]).
-      split; [reflexivity|]. intros h Eh. inversion Eh; subst. cbn. split; auto.
-      eapply fmp4_run_head_spec; eauto.
-    + cbn. split; [reflexivity|discriminate].
+  destruct s as [f|t].
+  - assert (HH : match fs_init f with Some i => head_hyp repaired i | None => True end).
+    { destruct (fs_init f) as [init|] eqn:FI; auto. destruct H as [H|[Hwf Hsup]]; [left; auto|right].
+      unfold all_supported in Hsup. rewrite forallb_forall in Hwf, Hsup.
+      specialize (Hwf _ N). specialize (Hsup _ N). cbn in Hwf, Hsup. rewrite FI in Hwf, Hsup.
+      apply andb_true_iff in Hsup. tauto. }
+    pose proof (fmp4_run_head_np repaired isLeading (fs_init f) HH) as NP.
+    destruct (fmp4_run_head repaired isLeading (fs_init f)) as [[[lead ts] init]| | |] eqn:E; cbn [bind];
+      try (split; [auto|discriminate]).
+    split; [reflexivity|]. intros h Eh. inversion Eh; subst. cbn. split; auto.
+    destruct (fs_init f) as [init0|]; [|cbn in E; discriminate].
+    eapply fmp4_run_head_spec; eauto.
   - destruct (tst_segs t); [split; [reflexivity|discriminate]|].
     pose proof (ts_initializeReader_np (tst_pmt t)) as NP.
     destruct (ts_initializeReader (tst_pmt t)) as [[lead ts]| | |]; cbn [bind]; try (split; [auto|discriminate]).
     split; [reflexivity|]. intros h Eh. inversion Eh; subst. reflexivity.
 Qed.
 
-Lemma stream_head_noof : forall sc isLeading r, is_oof (stream_head sc isLeading r) = false.
+Lemma stream_head_noof : forall repaired sc isLeading r, is_oof (stream_head repaired sc isLeading r) = false.
 Proof.
   intros. unfold stream_head. destruct (nth_error _ _) as [[f|t]|]; auto.
-  - apply bind_noof; [apply fmp4_run_head_noof|]. intros [lead ts] _. destruct (fs_init f); auto.
+  - apply bind_noof; [apply fmp4_run_head_noof|]. intros [[lead ts] init] _. auto.
   - destruct (tst_segs t); auto. apply bind_noof; [apply ts_initializeReader_noof|]. intros [lead ts] _; auto.
 Qed.
 
-Lemma heads_spec : forall sc refs,
-  forallb stream_wf (sc_streams sc) = true -> all_supported sc = true ->
-  is_panic (heads sc refs) = false /\ forall hs, heads sc refs = Ok hs -> Forall head_ok hs.
+Lemma heads_spec : forall repaired sc refs,
+  scen_hyp repaired sc ->
+  is_panic (heads repaired sc refs) = false /\ forall hs, heads repaired sc refs = Ok hs -> Forall head_ok hs.
 Proof.
-  intros sc refs Hwf Hsup. induction refs as [|[isL r] rest IH]; cbn.
+  intros repaired sc refs H. induction refs as [|[isL r] rest IH]; cbn.
   - split; [reflexivity|]. intros hs E. inversion E. constructor.
-  - destruct (stream_head_spec sc isL r Hwf Hsup) as [N S].
-    destruct (stream_head sc isL r) as [h| | |]; cbn [bind]; try (split; [auto|discriminate]).
-    destruct IH as [N2 S2]. destruct (heads sc rest) as [hs| | |]; cbn [bind]; try (split; [auto|discriminate]).
+  - destruct (stream_head_spec repaired sc isL r H) as [N S].
+    destruct (stream_head repaired sc isL r) as [h| | |]; cbn [bind]; try (split; [auto|discriminate]).
+    destruct IH as [N2 S2]. destruct (heads repaired sc rest) as [hs| | |]; cbn [bind]; try (split; [auto|discriminate]).
     split; [reflexivity|]. intros hs' E. inversion E; subst. constructor; auto.
 Qed.
 
-Lemma heads_noof : forall sc refs, is_oof (heads sc refs) = false.
+Lemma heads_noof : forall repaired sc refs, is_oof (heads repaired sc refs) = false.
 Proof.
-  intros sc refs. induction refs as [|[isL r] rest IH]; cbn; auto.
+  intros repaired sc refs. induction refs as [|[isL r] rest IH]; cbn; auto.
   apply bind_noof; [apply stream_head_noof|]. intros. apply bind_noof; auto.
 Qed.
 
@@ -537,33 +542,48 @@ Proof.
   destruct (run_head h c el) as [[[c' counts] n]| | |]; cbn; auto.
 Qed.
 
-Theorem client_run_np : forall sc el,
-  mc_wf sc = true -> all_supported sc = true -> is_panic (o_end (client_run sc el)) = false.
+Lemma client_run_gen_np : forall repaired sc el,
+  structural_ok (sc_primary sc) = true -> scen_hyp repaired sc ->
+  is_panic (o_end (client_run_gen repaired sc el)) = false.
 Proof.
-  intros sc el Hwf Hsup. unfold mc_wf in Hwf. apply andb_true_iff in Hwf. destruct Hwf as [Hst Hwf].
-  unfold client_run.
+  intros repaired sc el Hst H. unfold client_run_gen.
   pose proof (primary_streams_np _ Hst) as NP.
   destruct (primary_streams (sc_primary sc)) as [refs| | |]; cbn; auto.
-  destruct (heads_spec sc refs Hwf Hsup) as [NH SH].
-  destruct (heads sc refs) as [hs| | |]; cbn; auto.
+  destruct (heads_spec repaired sc refs H) as [NH SH].
+  destruct (heads repaired sc refs) as [hs| | |]; cbn; auto.
   destruct (List.concat (map head_tracks hs)); cbn; auto.
   destruct (sc_onTracksErr sc); cbn; auto.
   pose proof (run_heads_np hs None el [] 0 (SH _ eq_refl) I) as R.
   destruct (run_heads hs None el [] 0) as [[counts nerr] e]. cbn in *. auto.
 Qed.
 
-Theorem client_run_noof : forall sc el, is_oof (o_end (client_run sc el)) = false.
+Theorem client_run_np : forall sc el,
+  mc_wf sc = true -> all_supported sc = true -> is_panic (o_end (client_run sc el)) = false.
 Proof.
-  intros sc el. unfold client_run.
+  intros sc el Hwf Hsup. unfold mc_wf in Hwf. apply andb_true_iff in Hwf. destruct Hwf as [Hst Hwf].
+  apply client_run_gen_np; auto. right. auto.
+Qed.
+
+(* with the proposed repair the full statement holds: no hypothesis on the media content at all *)
+Theorem client_run_fixed_np : forall sc el,
+  structural_ok (sc_primary sc) = true -> is_panic (o_end (client_run_fixed sc el)) = false.
+Proof. intros. apply client_run_gen_np; auto. left. auto. Qed.
+
+Lemma client_run_gen_noof : forall repaired sc el, is_oof (o_end (client_run_gen repaired sc el)) = false.
+Proof.
+  intros repaired sc el. unfold client_run_gen.
   pose proof (primary_streams_noof (sc_primary sc)) as NP.
   destruct (primary_streams (sc_primary sc)) as [refs| | |]; cbn; auto.
-  pose proof (heads_noof sc refs) as NH.
-  destruct (heads sc refs) as [hs| | |]; cbn; auto.
+  pose proof (heads_noof repaired sc refs) as NH.
+  destruct (heads repaired sc refs) as [hs| | |]; cbn; auto.
   destruct (List.concat (map head_tracks hs)); cbn; auto.
   destruct (sc_onTracksErr sc); cbn; auto.
   pose proof (run_heads_noof hs None el [] 0) as R.
   destruct (run_heads hs None el [] 0) as [[counts nerr] e]. cbn in *. auto.
 Qed.
+
+Theorem client_run_noof : forall sc el, is_oof (o_end (client_run sc el)) = false.
+Proof. intros. apply client_run_gen_noof. Qed.
 
 (* ====================================================================== witnesses *)
 Definition vod_media : uplaylist :=
@@ -636,4 +656,15 @@ Proof. exists witness_zero_timescale, 0. exact refuted_zero_timescale. Qed.
    one of its hypotheses *)
 Lemma witnesses_outside_hypothesis :
   all_supported witness_unsupported_codec = false /\ all_supported witness_zero_timescale = false.
+Proof. vm_compute. auto. Qed.
+
+(* the repaired client on the findings' witnesses: the unsupported track is not exposed and the
+   stream fails with an error; the zero time scale is an error *)
+Lemma repaired_on_witnesses :
+  client_run_fixed witness_unsupported_codec 0 = fail_outcome (Err ENoSupportedTracks) /\
+  client_run_fixed witness_zero_timescale 0 = fail_outcome (Err EInvalidTimeScale) /\
+  client_run_fixed witness_valid 0 = client_run witness_valid 0 /\
+  client_run_fixed (one_stream [{| it_id := 1; it_timescale := 90000; it_codec := FH264 |};
+                                {| it_id := 2; it_timescale := 48000; it_codec := FAC3 |}] [1; 2]) 0 =
+    {| o_tracks := Some [Some GH264]; o_counts := [[1%nat]]; o_decodeErrors := 0; o_end := Ok tt |}.
 Proof. vm_compute. auto. Qed.
